@@ -1112,6 +1112,9 @@ func (u *Unit) evalCall(env *SpecEnv, x *ast.CallExpr) SV {
 		for k, v := range env.bound {
 			n.bound[k] = v
 		}
+		for _, pn := range d.Params {
+			delete(n.bound, pn) // the def's parameters shadow enclosing quantified variables
+		}
 		body := u.evalSE(&n, d.Body)
 		bt := u.lower(env.st, body.V, body.Typ)
 		key := name + ":" + did.Name + ":" + bt.S
